@@ -1,4 +1,463 @@
-From Verif Require Import Lib.Base Model.C14_Subscriptions Proofs.C14.
-Theorem C14_placeholder : to_submit 0 [] = [].
-Proof. reflexivity. Qed.
-Print Assumptions C14_placeholder.
+(* C14 -- future attester duties are all subscribed; every selected aggregator aggregates.
+   Property theorems only; the lemmas are in Proofs/C14.v, the model in Model/C14_Subscriptions.v
+   (what the code does, statement by statement) and the vocabulary of the statements in
+   Model/C14_Spec.v.
+
+   Reading guide.
+   [subscription_info target sign_ok duties] is what beaconcommitteesubscriber.Subscribe returns
+   (and the controller stores per epoch) for the beacon node's attester-duties answer [duties]:
+   one entry per (slot, committee).  [sign_ok s = false] says that the signer failed for slot s.
+   [to_submit cur info] is the payload of SubmitBeaconCommitteeSubscriptions when the current slot
+   is [cur].  [attest_run pr info cur acct_ok jobs atts] is the scheduler's table of aggregation
+   jobs after AttestAndScheduleAggregate has walked the attestations [atts] with the stored [info],
+   starting from the table [jobs].  [run pr init ops] is a whole history of subscribe / attest
+   operations of the controller.  A [duty] carries the 32 bytes of SHA-256 of its slot signature
+   ([d_hash]); SHA-256 itself is not modelled (the harness supplies the digest computed by Go's
+   crypto/sha256 on the bytes the signer returned).
+   [duty_for sign_ok ds s c d]: d is one of the duties [ds], for slot s and committee c, and slot
+   s could be signed.  [selected target d]: the consensus specification's is_aggregator on d's
+   own committee length and digest.  [consistent_duties ds]: the beacon node's answer does not
+   contradict itself on committees_at_slot / committee length.
+   Every theorem quantifies over ALL duty lists (any slots before, at and after the current one,
+   any number of committees and validators per committee, any order), all digests, sizes, targets. *)
+From Verif Require Import Lib.Base Model.C14_Subscriptions Model.C14_Spec Proofs.C14 Check.C14 Proofs.C14_Check.
+From Coq Require Import Sorting.Permutation.
+
+(* ------------------------------------------------------------------------------------------- *)
+(* The selection rule.                                                                         *)
+
+(* AggregatorsAndSignatures' arithmetic (binary.LittleEndian.Uint64(hash[:8]) % modulo == 0 with
+   modulo = size / target, raised to 1 when 0) is the specification's
+   bytes_to_uint64(hash[0:8]) % max(1, size // target) == 0, for every committee size, target and
+   digest. *)
+Theorem C14_is_aggregator_spec :
+  forall len target hash, bytes hash -> (8 <= length hash)%nat ->
+    is_aggregator len target hash = spec_is_aggregator len target hash.
+Proof. exact is_aggregator_spec_lemma. Qed.
+Print Assumptions C14_is_aggregator_spec.
+
+(* hash8: the shifts-and-ors of LittleEndian.Uint64 are the little-endian value of the first eight
+   bytes, and it fits a uint64 (no wrap hides in the model's unbounded N). *)
+Theorem C14_hash8_little_endian :
+  forall hash, bytes hash -> (8 <= length hash)%nat ->
+    le64 hash = bytes_to_uint64 (firstn 8 hash) /\ le64 hash < two64.
+Proof. intros hash Hb Hl. split; [apply le64_spec | apply le64_lt_two64]; assumption. Qed.
+Print Assumptions C14_hash8_little_endian.
+
+(* nothing but the first eight bytes of the digest is read, by the code or by the specification
+   (which is why the harness prints only those). *)
+Theorem C14_selection_reads_first_8_bytes :
+  forall len target hash,
+    is_aggregator len target (firstn 8 hash) = is_aggregator len target hash /\
+    spec_is_aggregator len target (firstn 8 hash) = spec_is_aggregator len target hash.
+Proof. intros. split; [apply is_aggregator_prefix | apply spec_is_aggregator_prefix]. Qed.
+Print Assumptions C14_selection_reads_first_8_bytes.
+
+(* a committee smaller than twice the target makes every member an aggregator *)
+Theorem C14_small_committee_all_aggregate :
+  forall len target hash, len < 2 * target -> is_aggregator len target hash = true.
+Proof. exact small_committee_all_aggregate. Qed.
+Print Assumptions C14_small_committee_all_aggregate.
+
+(* ------------------------------------------------------------------------------------------- *)
+(* Subscriptions.                                                                              *)
+
+(* For ANY attester duties and ANY current slot: the submitted payload holds exactly one
+   subscription per (slot, committee) that has a duty in a slot after the current one --
+   whatever other duties lie at or before the current slot -- and every subscription names a
+   validator that has that very duty, with the committees_at_slot merged for that slot and the
+   aggregator flag computed for that validator. *)
+Theorem C14_all_future_pairs_subscribed :
+  forall target sign_ok duties cur,
+    let payload := to_submit cur (subscription_info target sign_ok duties) in
+    NoDup (map pkey payload) /\
+    (forall s c, In (s, c) (map pkey payload) <-> cur < s /\ exists d, duty_for sign_ok duties s c d) /\
+    (forall p, In p payload ->
+       cur < p_slot p /\
+       exists d, duty_for sign_ok duties (p_slot p) (p_comm p) d /\
+                 p_val p = d_val d /\
+                 p_cas p = cas_of (sort_duties duties) (p_slot p) /\
+                 p_agg p = agg_of target (sort_duties duties) d).
+Proof.
+  intros target sign_ok duties cur payload. split; [apply submitted_nodup|].
+  split; [apply submitted_pairs | apply submitted_entry].
+Qed.
+Print Assumptions C14_all_future_pairs_subscribed.
+
+(* ... and when the beacon node's answer is self-consistent, those are the duty's own
+   committees_at_slot and the specification's selection rule on the validator's slot signature. *)
+Theorem C14_subscriptions_carry_duty_and_spec_flag :
+  forall target sign_ok duties cur p,
+    consistent_duties duties -> digests_ok duties ->
+    In p (to_submit cur (subscription_info target sign_ok duties)) ->
+    exists d, duty_for sign_ok duties (p_slot p) (p_comm p) d /\ p_val p = d_val d /\
+              p_cas p = d_cas d /\ p_agg p = selected target d.
+Proof. exact submitted_entry_consistent. Qed.
+Print Assumptions C14_subscriptions_carry_duty_and_spec_flag.
+
+(* "regardless of other duties of the same epoch lying in the past": the payload is, as a list,
+   the one computed from the future duties alone ... *)
+Theorem C14_future_subscriptions_independent_of_past :
+  forall target sign_ok duties cur,
+    to_submit cur (subscription_info target sign_ok duties) =
+    to_submit cur (subscription_info target sign_ok (filter (fun d => cur <? d_slot d) duties)).
+Proof. exact submitted_independent_of_past'. Qed.
+Print Assumptions C14_future_subscriptions_independent_of_past.
+
+(* ... so adding any duties that are not in the future changes nothing. *)
+Theorem C14_past_duties_do_not_matter :
+  forall target sign_ok past duties cur,
+    (forall d, In d past -> d_slot d <= cur) ->
+    to_submit cur (subscription_info target sign_ok (past ++ duties)) =
+    to_submit cur (subscription_info target sign_ok duties).
+Proof. exact past_duties_do_not_matter. Qed.
+Print Assumptions C14_past_duties_do_not_matter.
+
+(* The stored information (what the controller keeps for the epoch): exactly one entry per
+   (slot, committee) with a duty, each made from one of that committee's duties. *)
+Theorem C14_stored_info_one_entry_per_pair :
+  forall target sign_ok duties,
+    let info := subscription_info target sign_ok duties in
+    NoDup (map skey info) /\
+    (forall s c, In (s, c) (map skey info) <-> exists d, duty_for sign_ok duties s c d) /\
+    (forall e, In e info ->
+       exists d, duty_for sign_ok duties (s_slot e) (s_comm e) d /\ e = mk_sub target (sort_duties duties) d).
+Proof.
+  intros target sign_ok duties info. split; [apply info_nodup|]. split; [apply info_keys|].
+  intros e He. destruct (info_entry_in _ _ _ _ He) as (d & Hd & Hm & _). exists d. auto.
+Qed.
+Print Assumptions C14_stored_info_one_entry_per_pair.
+
+(* The closed form of every entry: the committee's validators in MergeDuties' order, the first
+   aggregator among them if any, otherwise the last. *)
+Theorem C14_stored_entry_closed_form :
+  forall target sign_ok duties s c,
+    find_sub s c (subscription_info target sign_ok duties) =
+    choose target (sort_duties duties) (members sign_ok (sort_duties duties) s c).
+Proof. exact info_entry. Qed.
+Print Assumptions C14_stored_entry_closed_form.
+
+(* The order of the beacon node's answer does not matter (nor what an unstable sort does with it),
+   as long as no validator is listed twice for one slot and committee. *)
+Theorem C14_info_independent_of_answer_order :
+  forall target sign_ok duties duties',
+    Permutation duties duties' -> NoDup (map dtriple duties) ->
+    subscription_info target sign_ok duties = subscription_info target sign_ok duties'.
+Proof. exact info_order_independent. Qed.
+Print Assumptions C14_info_independent_of_answer_order.
+
+(* calculateSubscriptionInfo runs one goroutine per slot, each walking its validators in order;
+   the model walks MergeDuties' list [M] once.  Every schedule of the goroutines -- every
+   interleaving [M'] that keeps each slot's own order -- records the same entry for every pair. *)
+Theorem C14_info_independent_of_goroutine_schedule :
+  forall target L M M' s c,
+    (forall s, filter (same_slot s) M' = filter (same_slot s) M) ->
+    find_sub s c (fold_left (add_member target L) M' []) = find_sub s c (fold_left (add_member target L) M []).
+Proof. exact info_schedule_independent. Qed.
+Print Assumptions C14_info_independent_of_goroutine_schedule.
+
+(* A committee with at least one selected validator is recorded -- and, when in the future,
+   subscribed -- with a selected validator and that validator's own slot signature. *)
+Theorem C14_recorded_aggregator_if_any :
+  forall target sign_ok duties s c d cur,
+    consistent_duties duties -> digests_ok duties ->
+    duty_for sign_ok duties s c d -> selected target d = true ->
+    exists e d', find_sub s c (subscription_info target sign_ok duties) = Some e /\ s_agg e = true /\
+      duty_for sign_ok duties s c d' /\ selected target d' = true /\
+      s_val e = d_val d' /\ s_sig e = d_sig d' /\
+      (cur < s -> In (to_subscription e) (to_submit cur (subscription_info target sign_ok duties))).
+Proof. exact recorded_aggregator_spec. Qed.
+Print Assumptions C14_recorded_aggregator_if_any.
+
+(* The same without any assumption on the answer, in terms of the flag vouch computes; and the
+   converse: the recorded flag is set only if some validator of the committee is selected. *)
+Theorem C14_recorded_flag_iff_some_validator_selected :
+  forall target sign_ok duties s c e,
+    find_sub s c (subscription_info target sign_ok duties) = Some e ->
+    exists d, duty_for sign_ok duties s c d /\ e = mk_sub target (sort_duties duties) d /\
+      (s_agg e = true <->
+       exists d', duty_for sign_ok duties s c d' /\ agg_of target (sort_duties duties) d' = true).
+Proof. exact recorded_flag_sound. Qed.
+Print Assumptions C14_recorded_flag_iff_some_validator_selected.
+
+(* Which validator is named: the selected one with the lowest index; if none is selected, the one
+   with the highest index (so the result does not depend on the order of the node's answer). *)
+Theorem C14_recorded_validator_is_lowest_selected :
+  forall target sign_ok duties s c e,
+    find_sub s c (subscription_info target sign_ok duties) = Some e ->
+    (s_agg e = true ->
+       forall d', duty_for sign_ok duties s c d' -> agg_of target (sort_duties duties) d' = true ->
+                  s_val e <= d_val d') /\
+    (s_agg e = false -> forall d', duty_for sign_ok duties s c d' -> d_val d' <= s_val e).
+Proof. exact recorded_which. Qed.
+Print Assumptions C14_recorded_validator_is_lowest_selected.
+
+(* ------------------------------------------------------------------------------------------- *)
+(* Aggregation jobs.                                                                           *)
+
+(* AttestAndScheduleAggregate over ANY stored information, ANY list of produced attestations and
+   ANY job table with distinct names: no job is lost or changed; names stay distinct; every attested
+   committee whose entry says aggregator (slot not in the past, account obtainable) has exactly
+   one job afterwards, and when that job is new it runs at StartOfSlot + delay for the recorded
+   validator with its slot signature and the data root of one of the committee's attestations;
+   and no other job is created. *)
+Theorem C14_attest_schedules_every_recorded_aggregator :
+  forall pr info cur acct_ok jobs atts,
+    NoDup (map jkey jobs) ->
+    let jobs' := attest_run pr info cur acct_ok jobs atts in
+    (exists new, jobs' = jobs ++ new) /\
+    NoDup (map jkey jobs') /\
+    (forall a e, In a atts -> find_sub (a_slot a) (a_comm a) info = Some e -> s_agg e = true ->
+       cur <= a_slot a -> acct_ok (s_val e) = true ->
+       exists j, In j jobs' /\ jkey j = akey a /\
+         (forall j', In j' jobs' -> jkey j' = akey a -> j' = j) /\
+         (~ In (akey a) (map jkey jobs) ->
+            j_time j = a_slot a * slot_ms pr + delay_ms pr /\ j_dslot j = a_slot a /\
+            j_val j = s_val e /\ j_sig j = s_sig e /\
+            exists a', In a' atts /\ akey a' = akey a /\ j_root j = a_root a')) /\
+    (forall j, In j jobs' -> ~ In j jobs ->
+       exists a e, In a atts /\ find_sub (a_slot a) (a_comm a) info = Some e /\ s_agg e = true /\
+         cur <= a_slot a /\ acct_ok (s_val e) = true /\ j = mk_job pr a e).
+Proof. exact attest_run_main. Qed.
+Print Assumptions C14_attest_schedules_every_recorded_aggregator.
+
+(* From the duties to the jobs: for every committee of the slot with an attestation produced and
+   a selected aggregator among vouch's validators there is exactly one aggregation job afterwards;
+   a new one runs at StartOfSlot + aggregation delay for a selected validator of that committee
+   with that validator's slot signature. *)
+Theorem C14_every_selected_committee_gets_job :
+  forall pr sign_ok duties cur acct_ok jobs atts a d,
+    consistent_duties duties -> digests_ok duties -> NoDup (map jkey jobs) ->
+    In a atts -> cur <= a_slot a ->
+    duty_for sign_ok duties (a_slot a) (a_comm a) d -> selected (agg_target pr) d = true ->
+    (forall d', duty_for sign_ok duties (a_slot a) (a_comm a) d' -> selected (agg_target pr) d' = true ->
+                acct_ok (d_val d') = true) ->
+    let jobs' := attest_run pr (subscription_info (agg_target pr) sign_ok duties) cur acct_ok jobs atts in
+    exists j, In j jobs' /\ jkey j = akey a /\
+      (forall j', In j' jobs' -> jkey j' = akey a -> j' = j) /\
+      (~ In (akey a) (map jkey jobs) ->
+         j_time j = a_slot a * slot_ms pr + delay_ms pr /\ j_dslot j = a_slot a /\
+         (exists d', duty_for sign_ok duties (a_slot a) (a_comm a) d' /\ selected (agg_target pr) d' = true /\
+                     j_val j = d_val d' /\ j_sig j = d_sig d') /\
+         exists a', In a' atts /\ akey a' = akey a /\ j_root j = a_root a').
+Proof. exact selected_committee_gets_job. Qed.
+Print Assumptions C14_every_selected_committee_gets_job.
+
+(* ------------------------------------------------------------------------------------------- *)
+(* Histories of the controller.                                                                *)
+
+(* the information used for an epoch is that of the epoch's last subscribe that got its duties *)
+Theorem C14_history_stored_info :
+  forall pr ops ep,
+    get_info ep (st_infos (fst (run pr init ops))) = last_info pr ep ops None.
+Proof. intros pr ops ep. apply (run_infos pr ops init ep). Qed.
+Print Assumptions C14_history_stored_info.
+
+(* along any history no job is ever lost, names stay distinct, and every job runs at
+   StartOfSlot(its slot) + delay carrying a duty of its own slot *)
+Theorem C14_history_jobs_invariant :
+  forall pr ops1 ops2,
+    let st1 := fst (run pr init ops1) in
+    let st2 := fst (run pr st1 ops2) in
+    (exists new, st_jobs st2 = st_jobs st1 ++ new) /\
+    NoDup (map jkey (st_jobs st2)) /\
+    Forall (fun j => j_time j = j_slot j * slot_ms pr + delay_ms pr /\ j_dslot j = j_slot j) (st_jobs st2).
+Proof.
+  intros pr ops1 ops2 st1 st2.
+  destruct (run_jobs pr ops2 st1) as [P I]. split; [exact P|].
+  apply I. apply (proj2 (run_jobs pr ops1 init)). apply init_inv.
+Qed.
+Print Assumptions C14_history_jobs_invariant.
+
+(* The property over a whole history: whatever happened before, after a subscribe of the epoch and
+   any operations that leave the epoch's information alone, attesting a slot of the epoch leaves
+   exactly one aggregation job for every attested committee with a selected validator of ours. *)
+Theorem C14_history_every_selected_committee_gets_job :
+  forall pr ops1 ep cur1 sign_fail duties ops2 dslot cur no_acct atts a d,
+    Forall (keeps ep) ops2 -> dslot / spe pr = ep ->
+    consistent_duties duties -> digests_ok duties ->
+    In a atts -> cur <= a_slot a ->
+    duty_for (sign_ok_of sign_fail) duties (a_slot a) (a_comm a) d -> selected (agg_target pr) d = true ->
+    (forall d', duty_for (sign_ok_of sign_fail) duties (a_slot a) (a_comm a) d' ->
+                selected (agg_target pr) d' = true -> acct_ok_of no_acct (d_val d') = true) ->
+    let st := fst (run pr init (ops1 ++ OSub ep cur1 false false sign_fail duties :: ops2)) in
+    let r := step pr st (OAtt dslot cur false no_acct atts) in
+    snd r = OutAtt (st_jobs (fst r)) /\
+    (forall j, In j (st_jobs st) -> In j (st_jobs (fst r))) /\
+    exists j, In j (st_jobs (fst r)) /\ jkey j = akey a /\
+      (forall j', In j' (st_jobs (fst r)) -> jkey j' = akey a -> j' = j) /\
+      j_time j = a_slot a * slot_ms pr + delay_ms pr /\ j_dslot j = a_slot a /\
+      (~ In (akey a) (map jkey (st_jobs st)) ->
+         (exists d', duty_for (sign_ok_of sign_fail) duties (a_slot a) (a_comm a) d' /\
+                     selected (agg_target pr) d' = true /\ j_val j = d_val d' /\ j_sig j = d_sig d') /\
+         exists a', In a' atts /\ akey a' = akey a /\ j_root j = a_root a').
+Proof. exact history_selected_committee_gets_job. Qed.
+Print Assumptions C14_history_every_selected_committee_gets_job.
+
+(* ------------------------------------------------------------------------------------------- *)
+(* The property predicate of the correspondence check (Check/C14.v), evaluated on what the REAL
+   implementation was observed to do, never through the model.                                 *)
+
+(* P_sub true on an observed submission (all calls of one subscribe) implies the property of that
+   submission: exactly the pairs with a duty after the current slot, once each; each naming a
+   validator with that duty, its committees_at_slot and the specification's flag; aggregator if
+   any validator of the committee is selected. *)
+Theorem C14_P_sub_sound :
+  forall tgt cur sign_fail duties calls,
+    P_sub tgt cur false false sign_fail duties calls = true ->
+    let entries := concat calls in
+    NoDup (map pkey entries) /\
+    (forall s c, In (s, c) (map pkey entries) <->
+                 cur < s /\ exists d, duty_for (sign_ok_of sign_fail) duties s c d) /\
+    (forall p, In p entries ->
+       exists d, duty_for (sign_ok_of sign_fail) duties (p_slot p) (p_comm p) d /\ cur < p_slot p /\
+         p_val p = d_val d /\
+         (consistent_duties duties -> p_cas p = d_cas d /\ p_agg p = selected tgt d)) /\
+    (consistent_duties duties ->
+       forall p d, In p entries -> duty_for (sign_ok_of sign_fail) duties (p_slot p) (p_comm p) d ->
+                   cur < p_slot p -> selected tgt d = true -> p_agg p = true).
+Proof. exact P_sub_sound. Qed.
+Print Assumptions C14_P_sub_sound.
+
+(* ... and the model's submission always satisfies it: P_sub cannot fire on an implementation that
+   agrees with the model (no false alarm from the predicate itself). *)
+Theorem C14_model_satisfies_P_sub :
+  forall tgt cur sign_fail duties,
+    digests_ok duties ->
+    P_sub tgt cur false false sign_fail duties
+          [to_submit cur (subscription_info tgt (sign_ok_of sign_fail) duties)] = true.
+Proof. exact model_satisfies_P_sub. Qed.
+Print Assumptions C14_model_satisfies_P_sub.
+
+(* P_att true on an observed attest step ([prev]: the jobs observed before it, [kn]: the latest
+   subscribe inputs per epoch) implies: nothing scheduled is lost; names are distinct; the real
+   Aggregate requested and submitted what the job carries; every new job is for an attested
+   committee, not in the past, at StartOfSlot + delay, for one of our validators with that duty
+   and its own slot signature (a selected one, when the answer was self-consistent); and every
+   attested committee with a selected validator has a job. *)
+Theorem C14_P_att_sound :
+  forall pr kn prev dslot cur no_acct atts jobs,
+    P_att pr kn prev dslot cur false no_acct atts jobs = true ->
+    let js := map fst jobs in
+    (forall j, In j prev -> In j js) /\
+    NoDup (map jkey js) /\
+    (forall j o, In (j, o) jobs -> o = Some (j_dslot j, j_root j, j_val j, j_sig j)) /\
+    (forall j, In j js -> ~ In (jkey j) (map jkey prev) ->
+       exists sf ds, known_get (dslot / spe pr) kn = Some (sf, ds) /\
+         (exists a, In a atts /\ akey a = jkey j /\ a_root a = j_root j) /\
+         cur <= j_slot j /\ j_time j = j_slot j * slot_ms pr + delay_ms pr /\ j_dslot j = j_slot j /\
+         acct_ok_of no_acct (j_val j) = true /\
+         exists d, duty_for (sign_ok_of sf) ds (j_slot j) (j_comm j) d /\ d_val d = j_val j /\
+                   d_sig d = j_sig j /\ (consistent_duties ds -> selected (agg_target pr) d = true)) /\
+    (forall sf ds, known_get (dslot / spe pr) kn = Some (sf, ds) -> consistent_duties ds ->
+       forall a d, In a atts -> cur <= a_slot a ->
+         duty_for (sign_ok_of sf) ds (a_slot a) (a_comm a) d -> selected (agg_target pr) d = true ->
+         (forall d', In d' ds -> dkey d' = akey a -> selected (agg_target pr) d' = true ->
+                     acct_ok_of no_acct (d_val d') = true) ->
+         In (akey a) (map jkey js)).
+Proof. exact P_att_sound. Qed.
+Print Assumptions C14_P_att_sound.
+
+(* The whole predicate over a whole history: whenever the implementation's observed outputs agree
+   with the model's (the correspondence test [agree] of the check), P_b holds on them -- for every
+   history of subscribe / attest operations with proper digests.  So a VIOLATION can only arise
+   where the implementation departs from the model, and the model satisfies the property by the
+   theorems above: the predicate itself cannot raise a false alarm. *)
+Theorem C14_P_b_holds_wherever_model_agrees :
+  forall c : case, case_digests_ok c -> agree c = true -> P_b c = true.
+Proof. exact agree_implies_P_b. Qed.
+Print Assumptions C14_P_b_holds_wherever_model_agrees.
+
+(* ------------------------------------------------------------------------------------------- *)
+(* The pinned tree (before the two `fix:` commits), kept as refutations with their witnesses.  *)
+
+(* `return` instead of `continue` in Subscribe's goroutine: ONE duty that is not in the future
+   suppressed the whole submission, for every duty list. *)
+Theorem C14_pinned_subscribe_refuted :
+  forall target sign_ok duties cur d,
+    In d duties -> sign_ok (d_slot d) = true -> d_slot d <= cur ->
+    to_submit_pinned cur (subscription_info target sign_ok duties) = None.
+Proof. exact pinned_drops_everything. Qed.
+Print Assumptions C14_pinned_subscribe_refuted.
+
+Definition h_sel : list N := [0; 0; 0; 0; 0; 0; 0; 0].     (* hash8 = 0: selected for every size *)
+Definition h_not : list N := [1; 0; 0; 0; 0; 0; 0; 0].     (* hash8 = 1: selected iff size/target <= 1 *)
+
+(* corpus/C14/past-duty-must-not-drop-future-subscriptions.json in miniature *)
+Definition ex_duties : list duty :=
+  [ mkDuty 31 5 0 64 2 7 1001 h_sel;    (* future, selected *)
+    mkDuty 34 3 0 64 2 4 1002 h_not;    (* past *)
+    mkDuty 32 4 1 64 2 2 1003 h_not;    (* at the current slot *)
+    mkDuty 33 5 1 64 2 9 1004 h_not;    (* future, another committee *)
+    mkDuty 30 5 0 64 2 1 1005 h_not ].  (* future, same committee as 31, not selected *)
+
+Example C14_pinned_subscribe_witness :
+  to_submit_pinned 4 (subscription_info 16 (fun _ => true) ex_duties) = None /\
+  to_submit 4 (subscription_info 16 (fun _ => true) ex_duties) =
+    [ mkSubscription 31 5 0 2 true; mkSubscription 33 5 1 2 false ].
+Proof. split; vm_compute; reflexivity. Qed.
+
+(* `return` after the first scheduled job in AttestAndScheduleAggregate: the slot's other
+   aggregating committees got no job. *)
+Definition ex_pr : params := mkParams 12000 8000 8 16.
+Definition ex_duties2 : list duty :=
+  [ mkDuty 40 72 0 64 3 1 2001 h_sel; mkDuty 41 72 1 64 3 2 2002 h_sel; mkDuty 42 72 2 64 3 3 2003 h_not ].
+Definition ex_atts : list att := [ mkAtt 72 0 9000; mkAtt 72 1 9001; mkAtt 72 2 9002 ].
+
+Theorem C14_pinned_aggregate_refuted :
+  exists pr info cur acct_ok atts a e,
+    In a atts /\ find_sub (a_slot a) (a_comm a) info = Some e /\ s_agg e = true /\ cur <= a_slot a /\
+    acct_ok (s_val e) = true /\
+    ~ In (akey a) (map jkey (attest_run_pinned pr info cur acct_ok [] atts)).
+Proof.
+  exists ex_pr, (subscription_info 16 (fun _ => true) ex_duties2), 72, (fun _ => true), ex_atts,
+         (mkAtt 72 1 9001), (mkSub 41 72 1 64 3 2 true 2002).
+  split; [right; left; reflexivity|]. split; [vm_compute; reflexivity|].
+  split; [reflexivity|]. split; [vm_compute; discriminate|]. split; [reflexivity|].
+  vm_compute. intros [H|[]]. discriminate.
+Qed.
+Print Assumptions C14_pinned_aggregate_refuted.
+
+(* ------------------------------------------------------------------------------------------- *)
+(* Non-vacuity: the hypotheses of the theorems above are satisfiable by non-trivial inputs.    *)
+
+Ltac in_cases H := repeat (destruct H as [<-|H]; [|]); [..|destruct H].
+
+Example C14_example_duties_wellformed : consistent_duties ex_duties /\ digests_ok ex_duties.
+Proof.
+  split.
+  - intros a b Ha Hb. cbn in Ha, Hb. in_cases Ha; in_cases Hb; cbn; intro; split; try reflexivity; try lia; intro; try reflexivity; lia.
+  - intros d Hd. cbn in Hd. in_cases Hd; (split; [repeat constructor|cbn; lia]).
+Qed.
+
+Example C14_example_selection :
+  selected 16 (mkDuty 31 5 0 64 2 7 1001 h_sel) = true /\
+  selected 16 (mkDuty 30 5 0 64 2 1 1005 h_not) = false /\
+  is_aggregator 31 16 h_not = true /\ is_aggregator 32 16 h_not = false /\
+  le64 [1; 2; 0; 0; 0; 0; 0; 128; 77] = 9223372036854776321.
+Proof. vm_compute. repeat split; reflexivity. Qed.
+
+(* the committee (5, 0) has validators 30 (not selected) and 31 (selected): 31 is recorded; the
+   past and current duties are stored but not submitted *)
+Example C14_example_info :
+  map (fun e => (s_val e, s_slot e, s_comm e, s_agg e)) (subscription_info 16 (fun _ => true) ex_duties) =
+  [ (34, 3, 0, false); (32, 4, 1, false); (31, 5, 0, true); (33, 5, 1, false) ].
+Proof. vm_compute. reflexivity. Qed.
+
+Example C14_example_duties2_wellformed : consistent_duties ex_duties2 /\ digests_ok ex_duties2.
+Proof.
+  split.
+  - intros a b Ha Hb. cbn in Ha, Hb. in_cases Ha; in_cases Hb; cbn; intro; split; try reflexivity; try lia; intro; try reflexivity; lia.
+  - intros d Hd. cbn in Hd. in_cases Hd; (split; [repeat constructor|cbn; lia]).
+Qed.
+
+(* a history: subscribe epoch 9 at slot 70, attest slot 72 at slot 72: two committees with a
+   selected validator, two jobs at 72 * 12 s + 8 s; the pinned loop made one *)
+Example C14_example_history :
+  snd (run ex_pr init [ OSub 9 70 false false [] ex_duties2; OAtt 72 72 false [] ex_atts ]) =
+  [ OutSub [[ mkSubscription 40 72 0 3 true; mkSubscription 41 72 1 3 true; mkSubscription 42 72 2 3 false ]]
+           (Some (subscription_info 16 (fun _ => true) ex_duties2));
+    OutAtt [ mkJob 72 0 872000 72 9000 40 2001; mkJob 72 1 872000 72 9001 41 2002 ] ] /\
+  attest_run_pinned ex_pr (subscription_info 16 (fun _ => true) ex_duties2) 72 (fun _ => true) [] ex_atts =
+  [ mkJob 72 0 872000 72 9000 40 2001 ].
+Proof. split; vm_compute; reflexivity. Qed.
